@@ -376,6 +376,9 @@ def shards(tier, seed):
         for b in range(6):
             out.append(("containers", nt, b, 6))
         out.append(("quantities", nt))
+    out.append(("prefixed", "float"))
+    if tier != "quick":
+        out.append(("prefixed", "Fraction"))
     out.append(("settings",))
     return out
 
@@ -394,6 +397,26 @@ def run_canonical(acc, nt, block, nblocks):
             if "#" not in spec and spec in ("D", "~P", "H"):
                 check_unit(acc, M, ureg, nt, {n: -2}, spec, "canonical-unit", prefix_names)
     acc.sample({"clause": "canonical-unit", "registry": nt, "unit": names[block], "specs": SPECS})
+
+
+def run_prefixed(acc, nt):
+    """every declared prefix (also those without a symbol of their own: semi-, sesqui-) on four units, long and short"""
+    M = model()
+    ureg = regs.default(nt)
+    prefix_names = set(M.prefixes)
+    st = M.spelling_table()
+    for pn in M.prefixes:
+        for un in ("meter", "second", "gram", "hertz"):
+            # a prefixed symbol that is ALSO a spelling some other unit owns (fm: femtometer and fermi) reads back as that
+            # unit — a collision in the definitions (C08's subject), not a rendering matter: long names only there
+            collides = symbol_of(M, pn + un) in st
+            for spec in SPECS:
+                if collides and "~" in spec:
+                    continue
+                check_unit(acc, M, ureg, nt, {pn + un: 1}, spec, "prefixed-unit", prefix_names)
+            if not collides:
+                check_unit(acc, M, ureg, nt, {pn + un: 1, "kelvin": -2}, "~P", "prefixed-unit", prefix_names)
+    acc.sample({"clause": "prefixed-unit", "registry": nt, "unit": "semimeter", "specs": SPECS})
 
 
 def run_containers(acc, nt, block, nblocks, tier):
@@ -646,6 +669,8 @@ def run_shard(acc, shard, tier, seed):
         run_quantities(acc, shard[1])
     elif k == "settings":
         run_settings(acc)
+    elif k == "prefixed":
+        run_prefixed(acc, shard[1])
     else:
         raise core.HarnessError(str(shard))
 
@@ -655,7 +680,7 @@ def replay(rec):
     acc = core.Acc(PROPERTY)
     M = model()
     nt = case.get("registry", "float")
-    if site[0] in ("canonical-unit", "compound-unit"):
+    if site[0] in ("canonical-unit", "compound-unit", "prefixed-unit"):
         ureg = regs.default(nt)
         units = {k: (int(v) if "/" not in v and "." not in v else Fraction(v)) for k, v in case["units"].items()}
         check_unit(acc, M, ureg, nt, units, case["spec"], site[0], set(M.prefixes))
